@@ -186,3 +186,4 @@ pub mod cutil;
 pub mod c31;
 pub mod c02;
 pub mod c29;
+pub mod c10;
